@@ -16,7 +16,7 @@ RULE = ("Hypothesis: well-formed sequences on 2 channels with time/key signature
 ASSUMPTIONS = ["cutoff: total duration is not part of the statement and is not compared",
                "set_channel is compared at event level (note pairing may change when two channels shared a pitch)"]
 TIERS = {"quick": dict(shards=8, examples=1500, alt_ppqn=[480, 7], alt_shards=3),
-         "thorough": dict(shards=16, examples=15000, alt_ppqn=[480, 96, 10, 1000], alt_shards=4)}
+         "thorough": dict(fuzz_runs=20000, fuzz_shards=4, shards=16, examples=15000, alt_ppqn=[480, 96, 10, 1000], alt_shards=2)}
 
 
 @st.composite
